@@ -86,7 +86,9 @@ OpPred(x, y, p) ==
     [] p = "is_superset" -> IsSuperset(x, y)
     [] p = "is_disjoint" -> IsDisjoint(x, y)
 
-OpEq(x, y) == [ab |-> EqMaps(x, y), ba |-> EqMaps(y, x), aa |-> EqMaps(x, x), bb |-> EqMaps(y, y)]
+\* `!=` is PartialEq::ne, whose default is the negation of eq (an override must agree with it)
+OpEq(x, y) == [ab |-> EqMaps(x, y), ba |-> EqMaps(y, x), aa |-> EqMaps(x, x), bb |-> EqMaps(y, y),
+               nab |-> ~EqMaps(x, y), nba |-> ~EqMaps(y, x)]
 
 \* ---------------------------------------------------------- enumeration --
 AlgKinds == {"union", "intersection", "difference", "symmetric_difference", "difference_ref"}
@@ -138,6 +140,7 @@ Ext(x, y) == {<<x[i].c, x[i].v>> : i \in 1..Len(x)} = {<<y[i].c, y[i].v>> : i \i
 EqIsExtensional ==
   LET r == OpEq(TagA(a), TagB(b)) IN
   /\ r.ab = Ext(a, b) /\ r.ba = Ext(a, b) /\ r.aa /\ r.bb
+  /\ r.nab = ~Ext(a, b) /\ r.nba = ~Ext(a, b)
 
 \* C08: each adaptor yields exactly the mathematical result, no element twice;
 \* intersection and difference hand out the LEFT operand's objects; at every stage
